@@ -208,6 +208,12 @@ func postBlock(fw *formatWriter, source []byte, cursor *commonmark.Cursor) {
 		if !cursor.ParentBlock().IsTightList() {
 			fw.s("\n")
 		}
+	case commonmark.BlockQuoteKind:
+		// An empty block quote has written nothing but its marker: end that line,
+		// so that the next block is separated from it like from any other block.
+		if fw.startedLine {
+			fw.s("\n")
+		}
 	case commonmark.ListItemKind:
 		// Only a paragraph in a tight list leaves its line open.
 		// Any other last block has ended its line already:
